@@ -223,7 +223,18 @@ def run_case(ck, rng, root, ci, tier):
     stress = {1: "lowz", 3: "turnover", 5: "lowz", 7: "turnover"}.get(ci % 8)
     if ci % 16 == 2:
         stress = "hemispheres"
-    if stress == "hemispheres":
+    if ci % 16 == 10:
+        stress = "arcsec"
+    if stress == "arcsec":
+        # stratum: arc-second scales whose limits nearly touch (1.0" and 1.001" are 5e-9 rad apart): every limit has its own
+        # edge in the merged grid, however close two edges are
+        import astropy.cosmology
+        from yaw import Configuration
+        cfgkw = dict(rmin=[0.5, 1.001, 2.0005], rmax=[1.0, 2.0, 4.0], unit="arcsec", rweight=None, resolution=None,
+                     edges=[0.1, 0.6, 1.1], closed=rng.choice(["left", "right"]), cosmology="Planck15")
+        config, cosmology = Configuration.create(**cfgkw), astropy.cosmology.Planck15
+        field = G.make_field(rng, num_patches=rng.choice([2, 3]), spread=3e-5)
+    elif stress == "hemispheres":
         # stratum: a full-sky sample cut into two halves (antipodal centres, patch radii near pi / 2): radius + radius + reach
         # exceeds pi, and the pairs across the boundary are a large part of the signal
         import astropy.cosmology
@@ -243,17 +254,33 @@ def run_case(ck, rng, root, ci, tier):
     else:
         config, cfgkw, cosmology = make_config(rng, ci=ci)
         field = G.make_field(rng)
+        if ci % 8 == 4:
+            import astropy.cosmology
+            from yaw import Configuration
+            cfgkw = dict(rmin=0.004, rmax=0.03, unit="rad", rweight=None, resolution=None, edges=[0.1, 0.6, 1.1],
+                         closed=rng.choice(["left", "right"]), cosmology="Planck15")
+            config, cosmology = Configuration.create(**cfgkw), astropy.cosmology.Planck15
+            field = G.make_field(rng, spread=0.1, num_patches=rng.choice([3, 4, 5]))
     ck.count(f"stratum={stress or 'general'}")
     N = field["N"]
     edges = cfgkw["edges"]
     kind = ["auto", "cross"][ci % 2]
     mode = "centers" if rng.random() < 0.85 else "name"
+    if not stress and ci % 8 == 4:
+        mode = "centers"          # all catalogs on exactly the same given centres
     zr = (edges[0] - 0.2 * (edges[-1] - edges[0]), edges[-1] + 0.2 * (edges[-1] - edges[0]))
     nmax = 60 if tier == "quick" else 250
     sizes = [rng.choice([max(N, 8), 25, nmax]) for _ in range(4)]
     ext = [rng.choice(["compact", "wide", "mixed"]) for _ in range(4)]
+    if not stress and ci % 8 == 4:
+        # stratum: the LARGEST catalog (most records in the first patch - the one a reference is picked by) is compact, the others
+        # are smaller and wide, the centres a few wide-patch radii apart: patch pairs are in reach of each other only through
+        # the wide catalogs, whose radii must count
+        sizes = [nmax, 25, 25, 25]
+        ext = ["compact", "wide", "wide", "wide"]
+        ck.count("stratum=compact-reference-wide-others")
     if stress:
-        ext = ["hemisphere" if stress == "hemispheres" else "compact"] * 4
+        ext = [{"hemispheres": "hemisphere", "arcsec": "arcsec"}.get(stress, "compact")] * 4
     # weights: all samples weighted / none / mixed (weighted data against unweighted randoms and vice versa), by turns
     wmode = ["all", "mixed", "none", "mixed-reversed"][ci % 4]
     wflags = {"all": [True] * 4, "none": [False] * 4, "mixed": [True, False, True, False],
@@ -261,6 +288,18 @@ def run_case(ck, rng, root, ci, tier):
     ck.count(f"weights={wmode}")
     samples = [G.make_sample(rng, field, n=max(sizes[k], N), extent_mode=ext[k], zrange=zr, edges=edges,
                              weights=wflags[k]) for k in range(4)]
+    if stress == "arcsec":
+        # pairs planted just outside / inside the nearly touching limits (separations 1.0005", 2.0002", 0.9995", 1.5" along RA)
+        asec = np.pi / 180 / 3600
+        for smp in samples:
+            m_ = min(8, len(smp["ra"]))
+            seps = np.array([1.0005, 2.0002, 0.9995, 1.5, 1.0005, 2.0002, 2.00049, 1.00099])[:m_] * asec
+            add = {"ra": smp["ra"][:m_] + seps / np.cos(smp["dec"][:m_]), "dec": smp["dec"][:m_].copy(), "z": smp["z"][:m_].copy(),
+                   "patch": np.asarray(smp["patch"])[:m_].copy()}
+            if smp.get("w") is not None:
+                add["w"] = smp["w"][:m_].copy()
+            for key, val in add.items():
+                smp[key] = np.concatenate([np.asarray(smp[key]), val])
     if ci % 5 == 4:
         # stratum: samples with repeated rows (bootstrap resamples, an object listed twice): every row is an object
         for smp in samples:
